@@ -60,6 +60,17 @@ def weave_fn(spec):
         drops.append((m[0].start(), m[0].end()))
         dropped.append(text[m[0].start():m[0].end()].strip())
     inserts = []  # (offset in `text`, string)
+    substituted = []
+    # --- substitutions: a callee / construct replaced by its contract stand-in (drop + insert), recorded
+    for sb in spec.get("subst", []):
+        ms = list(re.finditer(sb["pattern"], masked if not sb.get("raw") else text))
+        want = sb.get("count", 1)
+        if len(ms) != want:
+            raise sources.AnchorLost("subst pattern %r in %s matched %d times (want %d)" % (sb["pattern"], spec["name"], len(ms), want))
+        for m in ms:
+            drops.append((m.start(), m.end()))
+            inserts.append((m.start(), m.expand(sb["repl"]) if "\\" in sb["repl"] else sb["repl"], 1))
+            substituted.append(dict(original=text[m.start():m.end()].strip(), replaced_by=sb["repl"], why=sb.get("why", "")))
     body_open = loc["body_open"] - base
     # --- named return -----------------------------------------------------
     if spec.get("ret"):
@@ -76,8 +87,8 @@ def weave_fn(spec):
             tend = tstart + w.start()
         while text[tend - 1] in " \n":
             tend -= 1
-        inserts.append((tstart, "(%s: " % spec["ret"]))
-        inserts.append((tend, ")"))
+        inserts.append((tstart, "(%s: " % spec["ret"], 0))
+        inserts.append((tend, ")", 0))
     # --- header -----------------------------------------------------------
     if spec.get("header"):
         inserts.append((body_open, "\n    " + spec["header"].strip() + "\n"))
@@ -102,10 +113,10 @@ def weave_fn(spec):
         m = re.match(r"fn\s+", text[k:])
         renames.append((k + m.end(), k + m.end() + len(spec["name"]), spec["rename"]))
     # --- assemble ---------------------------------------------------------
-    events = [(o, 0, s) for o, s in inserts]
+    events = [(i[0], i[2] if len(i) > 2 else 2, i[1]) for i in inserts]
     out, pos = [], 0
     marks = []  # spans of inserted text in the woven output
-    segs = sorted(events, key=lambda e: e[0])
+    segs = sorted(events, key=lambda e: (e[0], e[1]))
     cut = sorted(drops)
     ren = sorted(renames)
     woven_len = 0
@@ -148,7 +159,7 @@ def weave_fn(spec):
     attrs = sf.text[loc["item_start"]:loc["sig_start"]].strip()
     info = dict(file=spec["file"], fn=spec["name"], within=spec.get("within"),
                 line=loc["line"], end_line=loc["end_line"],
-                dropped_attrs_and_docs=attrs, dropped_statements=dropped,
+                dropped_attrs_and_docs=attrs, dropped_statements=dropped, substitutions=substituted,
                 sha256=sources.sha256_file(spec["file"]))
     return woven, marks, info, loc
 
@@ -171,7 +182,13 @@ def build_file(unit_id, vspec, with_canaries=False):
         cur = "".join(parts)
         first = cur.count("\n") + 2
         parts.append("// verbatim from %s:%d (overlay woven)\n" % (fs["file"], loc["line"]))
-        parts.append(woven + "\n\n")
+        if fs.get("wrap_before"):
+            parts.append(fs["wrap_before"].rstrip() + "\n")
+            first += fs["wrap_before"].rstrip().count("\n") + 1
+        parts.append(woven + "\n")
+        if fs.get("wrap_after"):
+            parts.append(fs["wrap_after"].rstrip() + "\n")
+        parts.append("\n")
         # line classification inside the woven text
         ins_lines = set()
         for mk in marks:
